@@ -88,7 +88,9 @@ class Gate(Contract):
     def post(self, E, st, out):
         mod, holder, attr, cls, meth, branches, default, doc = self.spec
         if out.kind == "raise":
-            return {"dispatch_does_not_fail_for_wellformed_version": False}
+            # the document is arbitrary: a dispatcher that looks into it before dispatching may meet a missing key (rejecting such a
+            # document is right); every other failure for a well-formed version is a dispatch failure
+            return {"dispatch_does_not_fail_for_wellformed_version": out.exc_cls is KeyError}
         v = version_parts(E, st["ver"])
         taken = [c for c in st["calls"] if c in st["names"]]
         cl = {"dispatch_does_not_fail_for_wellformed_version": True, "exactly_one_reader_runs": len(taken) == 1,
@@ -433,5 +435,223 @@ class VariantsTopLevelGate(Contract):
             inputs["version"], inputs["S"], inputs["SO"], "listed as child" if inputs["listed"] else "not listed as child")
 
 
+class LegacyChildren(Contract):
+    """composeinfo Variant.deserialize(section, P) on the section {P: rec, P-C: rec, Q: rec} for EVERY header version, P a top-level UID with
+    or without a dash (the documented 'Server-optional' style: id is the UID without dashes), C and Q plain ids, Q not under P: before 1.0
+    parentage is implied by the UID prefix, so P-C is read as P's child (and registered with P as its parent) although no record lists it;
+    from 1.0 on only explicitly listed children are read.  Q is never read as a child.  validate / add / the path reader are recorded
+    (their own contracts)."""
+    name = "productmd.composeinfo.Variant.deserialize[children by UID prefix before 1.0]"
+    key = "gate:composeinfo.Variant.deserialize.children"
+
+    def __init__(self, src, T):
+        self.src, self.T = src, T
+
+    def setup(self, E):
+        from pyvc.engine import Entry
+        ci = E.instantiate(("composeinfo", "ComposeInfo"))
+        ver = SV(sym.Val.VStr(z3.Const("hdr.version", sym.S)))
+        ci.fields["header"].fields["version"] = ver
+        E.assume(F.valid_header(self.T, ci.fields["header"]))
+        P = SV(sym.Val.VStr(z3.Const("doc.P", sym.S)))
+        C = SV(sym.Val.VStr(z3.Const("doc.C", sym.S)))
+        Q = SV(sym.Val.VStr(z3.Const("doc.Q", sym.S)))
+        E.assume(And(sym.in_lang(P, r"[A-Za-z0-9]+(-[A-Za-z0-9]+)?"), sym.in_lang(C, r"[A-Za-z0-9]+"), sym.in_lang(Q, r"[A-Za-z0-9]+")))
+        PC = sym.concat(P, "-", C)
+        E.assume(And(Not(eq(Q, P)), sym.as_bool(z3.Not(z3.PrefixOf(sym.sstr(sym.concat(P, "-")), sym.sstr(Q))))))
+        listed = bool(E.decide(E.fresh("P_lists_C_as_child", z3.BoolSort())))
+
+        def D(items):
+            d = E.models.new_dict("doc")
+            for k, v in items:
+                d.entries.append(Entry(k, True, v))
+            return d
+
+        def rec(uid, vid, extra=()):
+            return D([("id", vid), ("uid", uid), ("name", "n"), ("type", "variant"), ("arches", ["x86_64"]), ("paths", D([]))] + list(extra))
+        order = [(P, rec(P, "p", [("variants", [C])] if listed else [])), (PC, rec(PC, C)), (Q, rec(Q, Q))]
+        if E.decide(E.fresh("document_order_reversed", z3.BoolSort())):
+            order.reverse()
+        sec = D(order)
+        calls = []
+
+        def mk(n):
+            def summ(E_, obj, args, kwargs):
+                calls.append((n, obj, list(args)))
+                return None
+            return summ
+        self._stubs = [(("composeinfo", "Variant"), "validate"), (("composeinfo", "VariantBase"), "add"), (("composeinfo", "Variant"), "add"),
+                       (("composeinfo", "VariantPaths"), "deserialize")]
+        for k in self._stubs:
+            E.summaries[k] = mk(k[1])
+        v = E.instantiate(("composeinfo", "Variant"), [ci])
+        return {"ci": ci, "ver": ver, "P": P, "PC": PC, "Q": Q, "C": C, "listed": listed, "sec": sec, "calls": calls, "v": v}
+
+    def call(self, E, st):
+        try:
+            return E.call(E.getattr_(st["v"], "deserialize"), [st["sec"], st["P"]])
+        finally:
+            for k in self._stubs:
+                E.summaries.pop(k, None)
+
+    def post(self, E, st, out):
+        if out.kind == "raise":
+            return {"reader_does_not_fail_on_wellformed_section": False}
+        legacy = lt(version_parts(E, st["ver"]), (1, 0))
+        adds = [c for c in st["calls"] if c[0] == "add" and c[1] is st["v"]]
+        other = [c for c in st["calls"] if c[0] == "add" and c[1] is not st["v"]]
+        one = len(adds) == 1 and isinstance(adds[0][2][0], Obj) and And(_veq(adds[0][2][0].fields.get("uid"), st["PC"]),
+                                                                       adds[0][2][0].fields.get("parent") is st["v"])
+        none = len(adds) == 0
+        if st["listed"]:
+            sel = one
+        else:
+            sel = And(Implies(legacy, one), Implies(Not(legacy), none)) if (one is not False or none is not False) else False
+        return {"reader_does_not_fail_on_wellformed_section": True,
+                "children_are_the_prefixed_uids_before_1_0_and_the_listed_ones_after": sel,
+                "nothing_registered_below_the_child": len(other) == 0}
+
+    def concretise(self, model, st):
+        return {"version": concretise.value_of(model, st["ver"]), "P": concretise.value_of(model, st["P"]),
+                "C": concretise.value_of(model, st["C"]), "Q": concretise.value_of(model, st["Q"]), "listed": st["listed"]}
+
+    def sample_inputs(self, rng):
+        for ver in ("0.0", "0.3", "0.9", "1.0", "1.1", "2.0"):
+            for listed in (False, True):
+                for P in ("Server", "Server-Tools", "A-b"):
+                    yield {"version": ver, "P": P, "C": "optional", "Q": "Client", "listed": listed}
+
+    def native_eval(self, inputs):
+        import re
+        from pyvc.verify import native_call
+        CI = self.src.mods["composeinfo"]
+        ci = CI.ComposeInfo()
+        ci.header.version = inputs["version"]
+        P, C, Q = inputs["P"], inputs["C"], inputs["Q"]
+        if not re.match(r"^\d+\.\d+$", inputs["version"]) or Q == P or Q.startswith(P + "-"):
+            return ("skip", None), None
+
+        def rec(uid, vid, extra=()):
+            return dict([("id", vid), ("uid", uid), ("name", "n"), ("type", "variant"), ("arches", ["x86_64"]), ("paths", {})] + list(extra))
+        sec = {P: rec(P, P.replace("-", ""), [("variants", [C])] if inputs["listed"] else []), P + "-" + C: rec(P + "-" + C, C), Q: rec(Q, Q)}
+        v = CI.Variant(ci)
+        nat = native_call(v.deserialize, sec, P)
+        if nat[0] == "raise":
+            return nat, {"reader_does_not_fail_on_wellformed_section": False}
+        legacy = tuple(int(x) for x in inputs["version"].split(".")) < (1, 0)
+        kids = sorted(c.uid for c in v.variants.values())
+        exp = [P + "-" + C] if (legacy or inputs["listed"]) else []
+        return nat, {"reader_does_not_fail_on_wellformed_section": True,
+                     "children_are_the_prefixed_uids_before_1_0_and_the_listed_ones_after":
+                     kids == exp and all(c.parent is v for c in v.variants.values()),
+                     "nothing_registered_below_the_child": all(len(c.variants) == 0 for c in v.variants.values())}
+
+    def describe(self, inputs):
+        return "composeinfo Variant.deserialize(section, %r) of a version %r section with variants %r, %r, %r (%s)" % (
+            inputs["P"], inputs["version"], inputs["P"], inputs["P"] + "-" + inputs["C"], inputs["Q"],
+            "child listed" if inputs["listed"] else "child not listed")
+
+
+class ComposeLegacyRead(Contract):
+    """composeinfo Compose.deserialize on a compose section with EVERY key present and symbolic, for EVERY header version: id, label and
+    final always come from their keys; before 0.3 date, type and respin are DECODED FROM THE ID (the informational 'type' key of such
+    documents is not authoritative), from 0.3 on they are the 'date' / 'type' / 'respin' keys.  get_date_type_respin is used through its
+    contract (fn:composeinfo.get_date_type_respin: an uninterpreted triple here), validate is recorded."""
+    name = "productmd.composeinfo.Compose.deserialize[fields by version]"
+    key = "gate:composeinfo.Compose.deserialize.fields"
+
+    def __init__(self, src, T):
+        self.src, self.T = src, T
+
+    def setup(self, E):
+        from pyvc.engine import Entry
+        ci = E.instantiate(("composeinfo", "ComposeInfo"))
+        ver = SV(sym.Val.VStr(z3.Const("hdr.version", sym.S)))
+        ci.fields["header"].fields["version"] = ver
+        E.assume(F.valid_header(self.T, ci.fields["header"]))
+        d = {}
+        for k in ("id", "type", "date", "label"):
+            d[k] = SV(sym.Val.VStr(z3.Const("sec.%s" % k, sym.S)))
+        d["respin"] = SV(sym.Val.VInt(z3.Int("sec.respin")))
+        d["final"] = SV(sym.Val.VBool(z3.Bool("sec.final")))
+        sec = E.models.new_dict("compose")
+        for k, v in d.items():
+            sec.entries.append(Entry(k, True, v))
+        data = E.models.new_dict("doc")
+        data.entries.append(Entry("compose", True, sec))
+        dec = {"date": SV(sym.Val.VStr(z3.Const("decoded.date", sym.S))), "type": SV(sym.Val.VStr(z3.Const("decoded.type", sym.S))),
+               "respin": SV(sym.Val.VInt(z3.Int("decoded.respin")))}
+        seen = []
+
+        def decode(E_, args, kwargs):
+            seen.append(args[0])
+            return (dec["date"], dec["type"], dec["respin"])
+        E.func_summaries[("composeinfo", "get_date_type_respin")] = decode
+        E.summaries[(("composeinfo", "Compose"), "validate")] = lambda E_, o, a, k: None
+        return {"c": ci.fields["compose"], "ver": ver, "d": d, "dec": dec, "data": data, "seen": seen}
+
+    def call(self, E, st):
+        try:
+            return E.call(E.getattr_(st["c"], "deserialize"), [st["data"]])
+        finally:
+            E.func_summaries.pop(("composeinfo", "get_date_type_respin"), None)
+            E.summaries.pop((("composeinfo", "Compose"), "validate"), None)
+
+    def post(self, E, st, out):
+        if out.kind == "raise":
+            return {"complete_section_is_read": False}
+        f = st["c"].fields
+        d, dec = st["d"], st["dec"]
+        legacy = lt(version_parts(E, st["ver"]), (0, 3))
+        decoded_from_own_id = len(st["seen"]) == 0 or all(_veq(x, d["id"]) for x in st["seen"])
+
+        def pick(k):
+            return And(Implies(legacy, _veq(f.get(k), dec[k])), Implies(Not(legacy), _veq(f.get(k), d[k])))
+        return {"complete_section_is_read": True,
+                "id_label_final_from_their_keys": And(_veq(f.get("id"), d["id"]), _veq(f.get("label"), If(eq(d["label"], ""), None, d["label"])),
+                                                      _veq(f.get("final"), d["final"])),
+                "date_type_respin_decoded_from_id_before_0_3_else_from_keys": And(pick("date"), pick("type"), pick("respin"),
+                                                                                  Implies(legacy, len(st["seen"]) > 0), decoded_from_own_id)}
+
+    def concretise(self, model, st):
+        inp = dict((k, concretise.value_of(model, v)) for k, v in st["d"].items())
+        inp["version"] = concretise.value_of(model, st["ver"])
+        return inp
+
+    def sample_inputs(self, rng):
+        for ver in ("0.0", "0.2", "0.3", "1.0", "1.2"):
+            for cid, typ in (("F-22-20150522.t.3", "test"), ("F-22-20150522.t.3", "production"), ("F-22-20150522.n.0", "test"),
+                             ("F-22-20150522.0", "nightly")):
+                yield {"version": ver, "id": cid, "type": typ, "date": "20010101", "respin": 7, "label": "", "final": False}
+
+    def native_eval(self, inputs):
+        import re
+        from pyvc.verify import native_call
+        CI = self.src.mods["composeinfo"]
+        ci = CI.ComposeInfo()
+        ci.header.version = inputs["version"]
+        if not re.match(r"^\d+\.\d+$", inputs["version"]):
+            return ("skip", None), None
+        try:
+            dec = CI.get_date_type_respin(inputs["id"])
+        except Exception:
+            return ("skip", None), None
+        c = ci.compose
+        c.validate = lambda: None
+        sec = dict((k, inputs[k]) for k in ("id", "type", "date", "respin", "label", "final"))
+        nat = native_call(c.deserialize, {"compose": sec})
+        if nat[0] == "raise":
+            return nat, {"complete_section_is_read": False}
+        legacy = tuple(int(x) for x in inputs["version"].split(".")) < (0, 3)
+        exp = dec if legacy else (inputs["date"], inputs["type"], inputs["respin"])
+        return nat, {"complete_section_is_read": True,
+                     "id_label_final_from_their_keys": c.id == inputs["id"] and c.label == (inputs["label"] or None) and c.final == bool(inputs["final"]),
+                     "date_type_respin_decoded_from_id_before_0_3_else_from_keys": (c.date, c.type, c.respin) == tuple(exp)}
+
+    def describe(self, inputs):
+        return "composeinfo Compose.deserialize of a version %r compose section %r" % (
+            inputs["version"], dict((k, inputs[k]) for k in ("id", "type", "date", "respin", "label", "final")))
+
+
 def contracts(src, T):
-    return [Gate(src, T, g) for g in GATES] + [HeaderRead(src, T, "common"), HeaderRead(src, T, "treeinfo"), ImagesLoadGate(src, T), VariantsTopLevelGate(src, T)]
+    return [Gate(src, T, g) for g in GATES] + [HeaderRead(src, T, "common"), HeaderRead(src, T, "treeinfo"), ImagesLoadGate(src, T), VariantsTopLevelGate(src, T), LegacyChildren(src, T), ComposeLegacyRead(src, T)]
